@@ -206,6 +206,9 @@ func init() {
 		}
 		for _, en := range encs {
 			xs := c02Inputs(c, en.m)
+			// the two inputs the recorded finding C02:literal-half-code is identified by (known_findings.txt): sRGB
+			// To16Bit exceeds the literal half-code bound there by about 1e-4 code, inside the 2^-7 allowance
+			xs = append(xs, math.Float32frombits(0x3f5c025c), math.Float32frombits(0x3f6adc6b))
 			type pt struct {
 				x float32
 				y uint32
